@@ -407,12 +407,30 @@ theorem frame_slot_step (W : World) (f : Nat) (ih : FrameAt W f) :
         exact frame_of_eq_stack ⟨pop_of_frame_push st.stack st1.stack [] hs (fpush.trans f1.1), f1.2⟩
       · exact ih.list _ _ _ _ _ hs h
     · split at h
-      · simp only [Res.ok.injEq, Prod.mk.injEq] at h; rw [← h.2]; exact Frame.refl st
+      · -- content the page handed to its layout: evaluated like supplied content
+        split at h
+        · obtain ⟨res, st1, h1, hk⟩ := bindR_ok h
+          simp only [Res.ok.injEq, Prod.mk.injEq] at hk
+          rw [← hk.2]
+          rename_i tk _
+          have fpush := slotScopeStack_frame st.stack (scopedVarName tk.1) (slotProps W.P (st.stack.envMap W.P.cfg) attrs)
+          have f1 := ih.list _ { st with stack := slotScopeStack st.stack (scopedVarName tk.1) (slotProps W.P (st.stack.envMap W.P.cfg) attrs) } _ _ _ (fpush.nonempty (push_nonempty _ _)) h1
+          exact frame_of_eq_stack ⟨pop_of_frame_push st.stack st1.stack [] hs (fpush.trans f1.1), f1.2⟩
+        · exact ih.list _ _ _ _ _ hs h
       · split at h
         · exact ih.list _ _ _ _ _ hs h
         · simp only [Res.ok.injEq, Prod.mk.injEq] at h; rw [← h.2]; exact Frame.refl st
   · split at h
-    · simp only [Res.ok.injEq, Prod.mk.injEq] at h; rw [← h.2]; exact Frame.refl st
+    ·
+      split at h
+      · obtain ⟨res, st1, h1, hk⟩ := bindR_ok h
+        simp only [Res.ok.injEq, Prod.mk.injEq] at hk
+        rw [← hk.2]
+        rename_i tk _
+        have fpush := slotScopeStack_frame st.stack (scopedVarName tk.1) (slotProps W.P (st.stack.envMap W.P.cfg) attrs)
+        have f1 := ih.list _ { st with stack := slotScopeStack st.stack (scopedVarName tk.1) (slotProps W.P (st.stack.envMap W.P.cfg) attrs) } _ _ _ (fpush.nonempty (push_nonempty _ _)) h1
+        exact frame_of_eq_stack ⟨pop_of_frame_push st.stack st1.stack [] hs (fpush.trans f1.1), f1.2⟩
+      · exact ih.list _ _ _ _ _ hs h
     · split at h
       · exact ih.list _ _ _ _ _ hs h
       · simp only [Res.ok.injEq, Prod.mk.injEq] at h; rw [← h.2]; exact Frame.refl st
